@@ -18,7 +18,7 @@ def strip_ts(msg):
 def add_tail(R, scn, kinds=None):
     """how the connection ends (C20): an honoured close request as the last line, the peer closing / resetting after a prefix
     of the bytes, or the k-th write failing; with an I/O handler absent / returning True / returning False"""
-    tail = R.choice(kinds or [None, "close", "close", "close-first", "eof", "reset", "wfail"])
+    tail = R.choice(kinds or [None, "close", "close", "close-first", "eof", "reset", "timedout", "unreach", "bare", "wfail", "wfail"])
     scn["tail"] = tail
     scn["io_handler"] = R.choice(["absent", True, False])
     scn["probe"] = False
@@ -31,7 +31,7 @@ def add_tail(R, scn, kinds=None):
         scn["requests"] = []
         scn["early"] = R.random() < 0.7
         scn["tail"] = tail = "close"
-    elif tail in ("eof", "reset"):
+    elif tail in ("eof", "reset", "timedout", "unreach", "bare"):
         stream = "".join(scn["chunks"])
         cut = R.choice([0, len(stream), R.randrange(0, len(stream) + 1), len("1|DPI|S|ARI.version|S|1.9.1\r\n")])
         out, left = [], cut
@@ -283,6 +283,7 @@ def run_real(scn, choose):
                 return scn["io_handler"]
         srv.set_exception_handler(H())
     sock.fail_write_at = scn.get("fail_write_at")
+    sock.fail_write_kind = ["pipe", "reset", "timedout", "unreach", "bare"][(scn.get("fail_write_at") or 0) % 5]
     sock.slow_write_at = scn.get("slow_write_at")
     srv.remote_user, srv.remote_password = scn.get("user"), scn.get("password")
     run.srv = srv
